@@ -831,6 +831,75 @@ pub broadcast proof fn lemma_bsem_sof(t: Tree, bits: Seq<bool>, n: int)
 }
 pub broadcast group eval_lemmas { lemma_eval_pre_mk, lemma_evalp_mk, lemma_evalp_leaf, lemma_evalp_top, lemma_bsem_sof }
 
+// ---------- eval (C02), outer part: the assignment denoted by the `(variable, value)` pairs, last value wins ----------
+pub open spec fn all_false() -> Env { |l: int| false }
+/// `base` overridden by the pairs in order; `m` maps variable numbers to levels
+pub open spec fn aenv(args: Seq<(u32, bool)>, m: spec_fn(int) -> int, base: Env) -> Env decreases args.len() {
+    if args.len() == 0 { base } else { upd(aenv(args.drop_last(), m, base), m(args.last().0 as int), args.last().1) }
+}
+pub open spec fn vl<M: Manager>(m: &M) -> spec_fn(int) -> int { |v: int| m.var_to_level_spec(v) }
+/// loop invariant of `eval_edge`: one bit per level holding the assignment so far, `ones` = number of set bits
+pub open spec fn zeval_inv(bits: Seq<bool>, ones: int, done: Seq<(u32, bool)>, m: spec_fn(int) -> int, n: int) -> bool {
+    &&& bits.len() == n
+    &&& ones == cnt(bits, 0)
+    &&& forall|l: int| 0 <= l < n ==> #[trigger] bits[l] == aenv(done, m, all_false())(l)
+}
+pub proof fn lemma_cnt_update(bits: Seq<bool>, i: int, v: bool, from: int)
+    requires 0 <= i < bits.len(), 0 <= from,
+    ensures cnt(bits.update(i, v), from) == cnt(bits, from) + (if from <= i { (if v { 1int } else { 0int }) - (if bits[i] { 1int } else { 0int }) } else { 0int }),
+    decreases bits.len() - from,
+{
+    if from < bits.len() { lemma_cnt_update(bits, i, v, from + 1); }
+}
+pub proof fn lemma_cnt_le(bits: Seq<bool>, from: int)
+    requires 0 <= from,
+    ensures 0 <= cnt(bits, from) <= (if from <= bits.len() { bits.len() - from } else { 0 }),
+    decreases bits.len() - from,
+{
+    if from < bits.len() { lemma_cnt_le(bits, from + 1); }
+}
+pub broadcast proof fn lemma_zeval_init(bits: Seq<bool>, m: spec_fn(int) -> int, n: int)
+    requires bits.len() == n, forall|i: int| 0 <= i < n ==> !(#[trigger] bits[i]),
+    ensures #[trigger] zeval_inv(bits, 0, Seq::<(u32, bool)>::empty(), m, n),
+{
+    lemma_cnt_range(bits, 0, n);
+    lemma_cnt_beyond(bits, n);
+    assert forall|i: int| 0 <= i < n implies !(#[trigger] sof(bits)(i)) by {}
+}
+pub broadcast proof fn lemma_zeval_step(bits: Seq<bool>, ones: int, done: Seq<(u32, bool)>, x: (u32, bool), m: spec_fn(int) -> int, n: int)
+    requires #[trigger] zeval_inv(bits, ones, done, m, n), 0 <= m(x.0 as int) < n,
+    ensures
+        0 <= ones <= n,
+        bits[m(x.0 as int)] == x.1 ==> zeval_inv(bits, ones, #[trigger] done.push(x), m, n),
+        bits[m(x.0 as int)] != x.1 ==> zeval_inv(bits.update(m(x.0 as int), x.1), ones + (if x.1 { 1int } else { -1int }), done.push(x), m, n)
+            && 0 <= ones + (if x.1 { 1int } else { -1int }) <= n,
+{
+    let lv = m(x.0 as int);
+    assert(done.push(x).drop_last() =~= done);
+    assert(done.push(x).last() == x);
+    assert(aenv(done.push(x), m, all_false()) == upd(aenv(done, m, all_false()), lv, x.1));
+    lemma_cnt_le(bits, 0);
+    if bits[lv] != x.1 {
+        lemma_cnt_update(bits, lv, x.1, 0);
+        lemma_cnt_le(bits.update(lv, x.1), 0);
+    }
+}
+pub broadcast proof fn lemma_zeval_pre(t: Tree, bits: Seq<bool>, ones: int, all: Seq<(u32, bool)>, m: spec_fn(int) -> int, n: int)
+    requires #[trigger] zeval_inv(bits, ones, all, m, n), wf(t),
+    ensures #[trigger] eval_pre(t, bits, ones),
+{
+    if top(t) >= 0 { lemma_cnt_range(bits, 0, top(t)); }
+}
+pub broadcast proof fn lemma_zeval_post(t: Tree, bits: Seq<bool>, ones: int, all: Seq<(u32, bool)>, m: spec_fn(int) -> int, n: int)
+    requires #[trigger] zeval_inv(bits, ones, all, m, n),
+    ensures #[trigger] bsem(t, n, aenv(all, m, all_false())) == mem(t, sof(bits)),
+{
+    let e = aenv(all, m, all_false());
+    assert(set_of(e, n) =~= sof(bits)) by {
+        assert forall|i: int| #[trigger] set_of(e, n)(i) == sof(bits)(i) by {}
+    }
+}
+pub broadcast group zeval_lemmas { lemma_zeval_init, lemma_zeval_step, lemma_zeval_pre, lemma_zeval_post }
 /// the reading of a cube used above is the documented one: the ZBDD `c` (over the n variables of the manager) denotes
 /// exactly the conjunction of its literals
 pub open spec fn lit_holds(c: Tree, l: int, env: Env) -> bool {
@@ -896,6 +965,16 @@ pub proof fn cube_is_conjunction(c: Tree, n: int, env: Env)
 pub open spec fn dc_chain(from: int, to: int, r: Tree) -> Tree decreases to - from {
     if 0 <= from < to <= u32::MAX { mk(from as u32, dc_chain(from + 1, to, r), dc_chain(from + 1, to, r)) } else { r }
 }
+/// the ZBDD of the Boolean function "variable on level l" over n levels: don't-care chain above, node (l, 2^{l+1..n}, ∅)
+pub open spec fn var_tree(l: int, n: int) -> Tree { dc_chain(0, l, mk(l as u32, taut_tree(l + 1, n), ee())) }
+pub broadcast proof fn lemma_dc_chain_step(from: int, to: int, r: Tree)
+    requires 0 <= from < to <= u32::MAX,
+    ensures #[trigger] dc_chain(from, to, r) == mk(from as u32, dc_chain(from + 1, to, r), dc_chain(from + 1, to, r)),
+{}
+pub broadcast proof fn lemma_dc_chain_base(to: int, r: Tree)
+    ensures #[trigger] dc_chain(to, to, r) == r,
+{}
+pub broadcast group chain_lemmas { lemma_dc_chain_step, lemma_dc_chain_base }
 pub open spec fn rb_model(c: Tree, level: int, n: int) -> Tree decreases c {
     match c {
         Tree::Leaf(_) => taut_tree(level, n),
@@ -923,6 +1002,43 @@ pub proof fn lemma_dc_chain(from: int, to: int, r: Tree, n: int, s: Env)
         assert(cleared(s, from, to) =~= s);
     }
 }
+//@lemma name=var_tree_is_variable props=C02
+pub proof fn var_tree_is_variable(l: int, n: int)
+    requires 0 <= l < n < u32::MAX,
+    ensures ok(var_tree(l, n), n), forall|env: Env| #[trigger] bsem(var_tree(l, n), n, env) == env(l),
+{
+    let t = taut_tree(l + 1, n);
+    let base = mk(l as u32, t, ee());
+    lemma_taut_ok_ind(l + 1, n);
+    assert(below(ee(), n));
+    assert(wf(t) && below(t, n) && top(t) >= l + 1 && t != ee());
+    assert(wf(ee()));
+    assert(wf(base));
+    assert(below(base, n));
+    assert(top(base) >= l && base != ee());
+    assert forall|env: Env| #[trigger] bsem(var_tree(l, n), n, env) == env(l) by {
+        let s = set_of(env, n);
+        lemma_dc_chain(0, l, base, n, s);
+        let c = cleared(s, 0, l);
+        let c2 = upd(c, l, false);
+        lemma_mem_taut_ind(l + 1, n, c2);
+        assert(mem(base, c) == (if c(l) { mem(t, c2) } else { mem(ee(), c) }));
+        assert(!mem(ee(), c));
+        assert(c(l) == env(l));
+        assert(within(c2, l + 1, n)) by {
+            assert forall|i: int| (#[trigger] c2(i)) implies l + 1 <= i < n by { assert(c(i)); assert(s(i)); }
+        }
+    }
+    lemma_dc_chain(0, l, base, n, set_of(|i: int| false, n));
+}
+pub broadcast proof fn lemma_rb_model_mk(k: u32, a: Tree, b: Tree, level: int, n: int)
+    ensures #[trigger] rb_model(mk(k, a, b), level, n) == (if a != b { ee() } else {
+        let r = rb_model(a, k as int + 1, n);
+        if r == ee() { ee() } else { dc_chain(level, k as int, r) } }),
+{}
+pub broadcast proof fn lemma_rb_model_leaf(b: bool, level: int, n: int)
+    ensures #[trigger] rb_model(Tree::Leaf(b), level, n) == taut_tree(level, n),
+{}
 //@lemma name=restrict_base_contract_satisfiable props=C04
 pub proof fn restrict_base_contract_satisfiable(c: Tree, level: int, n: int)
     requires ok(c, n), is_cube(c), 0 <= level <= top(c), level <= n <= u32::MAX,
@@ -969,6 +1085,11 @@ pub proof fn restrict_base_contract_satisfiable(c: Tree, level: int, n: int)
         }
     }
 }
+pub broadcast proof fn lemma_rb_model_post(c: Tree, level: int, n: int)
+    requires ok(c, n), is_cube(c), 0 <= level <= top(c), level <= n <= u32::MAX,
+    ensures #[trigger] restrict_post(bb(), c, level, n, rb_model(c, level, n)),
+{ restrict_base_contract_satisfiable(c, level, n); }
+pub broadcast group rb_lemmas { lemma_rb_model_mk, lemma_rb_model_leaf, lemma_rb_model_post, lemma_dc_chain_step, lemma_dc_chain_base }
 
 // ---------- model counting (C12, ZBDD part) ----------
 pub open spec fn pow2(k: nat) -> int decreases k { if k == 0 { 1 } else { 2 * pow2((k - 1) as nat) } }
@@ -1131,12 +1252,73 @@ impl FixedBitSet {
     pub open spec fn spec_contains(&self, i: int) -> bool { 0 <= i < self.bits@.len() && self.bits@[i] }
     pub fn contains(&self, bit: usize) -> (r: bool) ensures r == self.spec_contains(bit as int)
     { if bit < self.bits.len() { self.bits[bit] } else { false } }
+    /// ASSUMED (fixedbitset docs): a new set of `bits` bits, all clear
+    #[verifier::external_body]
+    pub fn with_capacity(bits: usize) -> (r: Self)
+        ensures r.bits@.len() == bits, forall|i: int| 0 <= i < bits ==> !(#[trigger] r.bits@[i])
+    { unimplemented!() }
+    /// ASSUMED (fixedbitset docs): sets bit `bit` to `enabled`; panics if `bit` is out of bounds
+    #[verifier::external_body]
+    pub fn set(&mut self, bit: usize, enabled: bool)
+        requires bit < old(self).bits@.len(),
+        ensures final(self).bits@ == old(self).bits@.update(bit as int, enabled),
+    { unimplemented!() }
+}
+/// stub of the `impl IntoIterator<Item = (VarNo, bool)>` argument of `eval_edge` (rule R10): `all()` is the sequence it
+/// yields, `done()` the prefix yielded so far (ASSUMED: std Iterator protocol)
+pub struct ArgIter { pub all: Ghost<Seq<(u32, bool)>>, pub done: Ghost<Seq<(u32, bool)>> }
+impl ArgIter {
+    pub open spec fn all(&self) -> Seq<(u32, bool)> { self.all@ }
+    pub open spec fn done(&self) -> Seq<(u32, bool)> { self.done@ }
+    #[verifier::external_body]
+    pub fn next(&mut self) -> (r: Option<(VarNo, bool)>)
+        ensures final(self).all() == old(self).all(),
+            r is None ==> old(self).done() == old(self).all() && final(self).done() == old(self).done(),
+            r is Some ==> old(self).done().len() < old(self).all().len() && r->Some_0 == old(self).all()[old(self).done().len() as int]
+                && final(self).done() == old(self).done().push(r->Some_0),
+    { unimplemented!() }
 }
 pub trait LevelView<E: Edge, N: InnerNode<E>> {
     spec fn level_no_spec(&self) -> u32;
+    fn level_no(&self) -> (r: LevelNo) ensures r == self.level_no_spec();
     fn get_or_insert(&mut self, node: N) -> (r: AllocResult<E>)
         requires node.level_spec() == old(self).level_no_spec(),
-        ensures r is Ok ==> r->Ok_0.view() == mk(node.level_spec(), node.then_spec(), node.else_spec());
+        ensures r is Ok ==> r->Ok_0.view() == mk(node.level_spec(), node.then_spec(), node.else_spec()),
+            final(self).level_no_spec() == old(self).level_no_spec();
+}
+/// stub of `(lo..hi).rev()` over u32 (rule R17; ASSUMED: std semantics — yields hi-1, hi-2, .., lo)
+pub struct RevRange { pub lo: u32, pub cur: u32 }
+pub fn rev_range(lo: u32, hi: u32) -> (r: RevRange) ensures r.lo == lo, r.cur == (if hi >= lo { hi } else { lo }) { RevRange { lo, cur: if hi >= lo { hi } else { lo } } }
+impl RevRange {
+    pub fn next(&mut self) -> (r: Option<u32>)
+        requires old(self).lo <= old(self).cur,
+        ensures final(self).lo == old(self).lo,
+            old(self).cur > old(self).lo ==> r == Some((old(self).cur - 1) as u32) && final(self).cur == old(self).cur - 1,
+            old(self).cur <= old(self).lo ==> r is None && final(self).cur == old(self).cur,
+    { if self.cur > self.lo { self.cur = self.cur - 1; Some(self.cur) } else { None } }
+}
+/// stub of the iterator returned by `Manager::levels()` and of the std adapters `rev` / `skip` / `take` applied to it
+/// (ASSUMED: std semantics of DoubleEndedIterator::rev, Iterator::skip, Iterator::take, stated over the ghost sequence
+/// `rem()` of the level numbers still to be yielded; `levels()` yields the level views top-down, 0..num_levels).
+/// Inherent methods take precedence over the `Iterator` trait's provided methods, so the real call text is unchanged.
+pub struct LevelIter<E: Edge, N: InnerNode<E>, V: LevelView<E, N>> { pub rem: Ghost<Seq<u32>>, pub p: std::marker::PhantomData<(E, N, V)> }
+impl<E: Edge, N: InnerNode<E>, V: LevelView<E, N>> LevelIter<E, N, V> {
+    pub open spec fn rem(&self) -> Seq<u32> { self.rem@ }
+    #[verifier::external_body]
+    pub fn rev(self) -> (r: Self) ensures r.rem() == self.rem().reverse() { unimplemented!() }
+    #[verifier::external_body]
+    pub fn skip(self, n: usize) -> (r: Self)
+        ensures r.rem() == (if n <= self.rem().len() { self.rem().skip(n as int) } else { Seq::<u32>::empty() })
+    { unimplemented!() }
+    #[verifier::external_body]
+    pub fn take(self, n: usize) -> (r: Self)
+        ensures r.rem() == (if n <= self.rem().len() { self.rem().take(n as int) } else { self.rem() })
+    { unimplemented!() }
+    #[verifier::external_body]
+    pub fn next(&mut self) -> (r: Option<V>)
+        ensures old(self).rem().len() == 0 ==> r is None && final(self).rem() == old(self).rem(),
+            old(self).rem().len() > 0 ==> r is Some && r->Some_0.level_no_spec() == old(self).rem()[0] && final(self).rem() == old(self).rem().skip(1),
+    { unimplemented!() }
 }
 pub trait Manager: Sized {
     type Edge: Edge;
@@ -1158,9 +1340,15 @@ pub trait Manager: Sized {
     fn level(&self, no: LevelNo) -> (r: Self::LevelView<'_>)
         requires (no as int) < self.num_levels_spec()
         ensures r.level_no_spec() == no;
+    fn levels(&self) -> (r: LevelIter<Self::Edge, Self::InnerNode, Self::LevelView<'_>>)
+        ensures r.rem() == Seq::new(self.num_levels_spec() as nat, |i: int| i as u32);
     fn var_to_level(&self, var: VarNo) -> (l: LevelNo)
         requires (var as int) < self.num_levels_spec()
         ensures l as int == self.var_to_level_spec(var as int), (l as int) < self.num_levels_spec() <= u32::MAX as int;
+    spec fn level_to_var_spec(&self, l: int) -> int;
+    fn level_to_var(&self, level: LevelNo) -> (v: VarNo)
+        requires (level as int) < self.num_levels_spec()
+        ensures v as int == self.level_to_var_spec(level as int), (v as int) < self.num_levels_spec();
 }
 pub mod oxidd_core {
     pub use super::LevelView;
@@ -1221,6 +1409,19 @@ pub struct SequentialRecursor;
 impl<M: Manager> Recursor<M> for SequentialRecursor {
     open spec fn switch_spec(self) -> bool { false }
     fn should_switch_to_sequential(self) -> bool { false }
+}
+/// stub of the multi-threaded recursor used by the `mt` wrappers.  ASSUMED: the generic apply functions meet their
+/// contracts also when run with it (they are PROVED with the sequential recursor's methods inlined, rule R5; the
+/// fork/join bodies of ParallelRecursor are not verified).  What the `__mt` units prove is the wrapper glue.
+#[derive(Clone, Copy)]
+pub struct ParallelRecursor { pub depth: u32 }
+impl ParallelRecursor {
+    #[verifier::external_body]
+    pub fn new<M: Manager>(manager: &M) -> (r: Self) { unimplemented!() }
+}
+impl<M: Manager> Recursor<M> for ParallelRecursor {
+    open spec fn switch_spec(self) -> bool { self.depth == 0 }
+    fn should_switch_to_sequential(self) -> bool { self.depth == 0 }
 }
 
 // ---------- items copied from the real crates ----------
@@ -1439,9 +1640,26 @@ where M: Manager<Terminal = ZBDDTerminal> + HasApplyCache<M, ZBDDOp> + HasZBDDCa
     ensures res is Ok ==> ok(res->Ok_0.view(), manager.num_levels_spec())
         && forall|s: Env| #[trigger] mem(res->Ok_0.view(), s) == is_singleton_set(s, manager.var_to_level_spec(var as int)),
 //@end
+//@fn file=crates/oxidd-rules-zbdd/src/apply_rec.rs path=mod:mt/impl:BooleanVecSet~for~ZBDDFunctionMT<F>/fn:singleton_edge name=singleton_edge__mt props=C09,C03 subst_text=ZBDDFunction::<F>::::=
+//@header
+fn singleton_edge__mt<M>(manager: &M, var: VarNo) -> (res: AllocResult<M::Edge>)
+where M: Manager<Terminal = ZBDDTerminal> + HasApplyCache<M, ZBDDOp> + HasZBDDCache<M::Edge>, M::InnerNode: HasLevel,
+//@spec
+    requires (var as int) < manager.num_levels_spec(),
+    // exactly the family { {var} }
+    ensures res is Ok ==> ok(res->Ok_0.view(), manager.num_levels_spec())
+        && forall|s: Env| #[trigger] mem(res->Ok_0.view(), s) == is_singleton_set(s, manager.var_to_level_spec(var as int)),
+//@end
 //@fn file=crates/oxidd-rules-zbdd/src/apply_rec.rs path=impl:BooleanVecSet~for~ZBDDFunction<F>/fn:empty_edge props=C09
 //@header
 fn empty_edge<M>(manager: &M) -> (res: M::Edge)
+where M: Manager<Terminal = ZBDDTerminal> + HasApplyCache<M, ZBDDOp> + HasZBDDCache<M::Edge>, M::InnerNode: HasLevel,
+//@spec
+    ensures ok(res.view(), manager.num_levels_spec()), forall|s: Env| !(#[trigger] mem(res.view(), s)),
+//@end
+//@fn file=crates/oxidd-rules-zbdd/src/apply_rec.rs path=mod:mt/impl:BooleanVecSet~for~ZBDDFunctionMT<F>/fn:empty_edge name=empty_edge__mt props=C09
+//@header
+fn empty_edge__mt<M>(manager: &M) -> (res: M::Edge)
 where M: Manager<Terminal = ZBDDTerminal> + HasApplyCache<M, ZBDDOp> + HasZBDDCache<M::Edge>, M::InnerNode: HasLevel,
 //@spec
     ensures ok(res.view(), manager.num_levels_spec()), forall|s: Env| !(#[trigger] mem(res.view(), s)),
@@ -1453,9 +1671,24 @@ where M: Manager<Terminal = ZBDDTerminal> + HasApplyCache<M, ZBDDOp> + HasZBDDCa
 //@spec
     ensures ok(res.view(), manager.num_levels_spec()), forall|s: Env| #[trigger] mem(res.view(), s) == is_empty_set(s),
 //@end
+//@fn file=crates/oxidd-rules-zbdd/src/apply_rec.rs path=mod:mt/impl:BooleanVecSet~for~ZBDDFunctionMT<F>/fn:base_edge name=base_edge__mt props=C09
+//@header
+fn base_edge__mt<M>(manager: &M) -> (res: M::Edge)
+where M: Manager<Terminal = ZBDDTerminal> + HasApplyCache<M, ZBDDOp> + HasZBDDCache<M::Edge>, M::InnerNode: HasLevel,
+//@spec
+    ensures ok(res.view(), manager.num_levels_spec()), forall|s: Env| #[trigger] mem(res.view(), s) == is_empty_set(s),
+//@end
 //@fn file=crates/oxidd-rules-zbdd/src/apply_rec.rs path=impl:BooleanVecSet~for~ZBDDFunction<F>/fn:subset0_edge props=C09
 //@header
 fn subset0_edge<M>(manager: &M, set: &M::Edge, var: VarNo) -> (res: AllocResult<M::Edge>)
+where M: Manager<Terminal = ZBDDTerminal> + HasApplyCache<M, ZBDDOp> + HasZBDDCache<M::Edge>, M::InnerNode: HasLevel,
+//@spec
+    requires edge_ok::<M::Edge>(), ok(set.view(), manager.num_levels_spec()), (var as int) < manager.num_levels_spec(),
+    ensures res is Ok ==> subset0_post(set.view(), manager.var_to_level_spec(var as int), manager.num_levels_spec(), res->Ok_0.view()),
+//@end
+//@fn file=crates/oxidd-rules-zbdd/src/apply_rec.rs path=mod:mt/impl:BooleanVecSet~for~ZBDDFunctionMT<F>/fn:subset0_edge name=subset0_edge__mt props=C09
+//@header
+fn subset0_edge__mt<M>(manager: &M, set: &M::Edge, var: VarNo) -> (res: AllocResult<M::Edge>)
 where M: Manager<Terminal = ZBDDTerminal> + HasApplyCache<M, ZBDDOp> + HasZBDDCache<M::Edge>, M::InnerNode: HasLevel,
 //@spec
     requires edge_ok::<M::Edge>(), ok(set.view(), manager.num_levels_spec()), (var as int) < manager.num_levels_spec(),
@@ -1469,9 +1702,25 @@ where M: Manager<Terminal = ZBDDTerminal> + HasApplyCache<M, ZBDDOp> + HasZBDDCa
     requires edge_ok::<M::Edge>(), ok(set.view(), manager.num_levels_spec()), (var as int) < manager.num_levels_spec(),
     ensures res is Ok ==> subset1_post(set.view(), manager.var_to_level_spec(var as int), manager.num_levels_spec(), res->Ok_0.view()),
 //@end
+//@fn file=crates/oxidd-rules-zbdd/src/apply_rec.rs path=mod:mt/impl:BooleanVecSet~for~ZBDDFunctionMT<F>/fn:subset1_edge name=subset1_edge__mt props=C09
+//@header
+fn subset1_edge__mt<M>(manager: &M, set: &M::Edge, var: VarNo) -> (res: AllocResult<M::Edge>)
+where M: Manager<Terminal = ZBDDTerminal> + HasApplyCache<M, ZBDDOp> + HasZBDDCache<M::Edge>, M::InnerNode: HasLevel,
+//@spec
+    requires edge_ok::<M::Edge>(), ok(set.view(), manager.num_levels_spec()), (var as int) < manager.num_levels_spec(),
+    ensures res is Ok ==> subset1_post(set.view(), manager.var_to_level_spec(var as int), manager.num_levels_spec(), res->Ok_0.view()),
+//@end
 //@fn file=crates/oxidd-rules-zbdd/src/apply_rec.rs path=impl:BooleanVecSet~for~ZBDDFunction<F>/fn:change_edge props=C09 subst_text=subset::<_,~_,~-1>::=subset_change
 //@header
 fn change_edge<M>(manager: &M, set: &M::Edge, var: VarNo) -> (res: AllocResult<M::Edge>)
+where M: Manager<Terminal = ZBDDTerminal> + HasApplyCache<M, ZBDDOp> + HasZBDDCache<M::Edge>, M::InnerNode: HasLevel,
+//@spec
+    requires edge_ok::<M::Edge>(), ok(set.view(), manager.num_levels_spec()), (var as int) < manager.num_levels_spec(),
+    ensures res is Ok ==> change_post(set.view(), manager.var_to_level_spec(var as int), manager.num_levels_spec(), res->Ok_0.view()),
+//@end
+//@fn file=crates/oxidd-rules-zbdd/src/apply_rec.rs path=mod:mt/impl:BooleanVecSet~for~ZBDDFunctionMT<F>/fn:change_edge name=change_edge__mt props=C09 subst_text=subset::<_,~_,~-1>::=subset_change
+//@header
+fn change_edge__mt<M>(manager: &M, set: &M::Edge, var: VarNo) -> (res: AllocResult<M::Edge>)
 where M: Manager<Terminal = ZBDDTerminal> + HasApplyCache<M, ZBDDOp> + HasZBDDCache<M::Edge>, M::InnerNode: HasLevel,
 //@spec
     requires edge_ok::<M::Edge>(), ok(set.view(), manager.num_levels_spec()), (var as int) < manager.num_levels_spec(),
@@ -1485,9 +1734,25 @@ where M: Manager<Terminal = ZBDDTerminal> + HasApplyCache<M, ZBDDOp> + HasZBDDCa
     requires edge_ok::<M::Edge>(), ok(lhs.view(), manager.num_levels_spec()), ok(rhs.view(), manager.num_levels_spec()),
     ensures res is Ok ==> union_post(lhs.view(), rhs.view(), manager.num_levels_spec(), res->Ok_0.view()),
 //@end
+//@fn file=crates/oxidd-rules-zbdd/src/apply_rec.rs path=mod:mt/impl:BooleanVecSet~for~ZBDDFunctionMT<F>/fn:union_edge name=union_edge__mt props=C09
+//@header
+fn union_edge__mt<M>(manager: &M, lhs: &M::Edge, rhs: &M::Edge) -> (res: AllocResult<M::Edge>)
+where M: Manager<Terminal = ZBDDTerminal> + HasApplyCache<M, ZBDDOp> + HasZBDDCache<M::Edge>, M::InnerNode: HasLevel,
+//@spec
+    requires edge_ok::<M::Edge>(), ok(lhs.view(), manager.num_levels_spec()), ok(rhs.view(), manager.num_levels_spec()),
+    ensures res is Ok ==> union_post(lhs.view(), rhs.view(), manager.num_levels_spec(), res->Ok_0.view()),
+//@end
 //@fn file=crates/oxidd-rules-zbdd/src/apply_rec.rs path=impl:BooleanVecSet~for~ZBDDFunction<F>/fn:intsec_edge props=C09
 //@header
 fn intsec_edge<M>(manager: &M, lhs: &M::Edge, rhs: &M::Edge) -> (res: AllocResult<M::Edge>)
+where M: Manager<Terminal = ZBDDTerminal> + HasApplyCache<M, ZBDDOp> + HasZBDDCache<M::Edge>, M::InnerNode: HasLevel,
+//@spec
+    requires edge_ok::<M::Edge>(), ok(lhs.view(), manager.num_levels_spec()), ok(rhs.view(), manager.num_levels_spec()),
+    ensures res is Ok ==> intsec_post(lhs.view(), rhs.view(), manager.num_levels_spec(), res->Ok_0.view()),
+//@end
+//@fn file=crates/oxidd-rules-zbdd/src/apply_rec.rs path=mod:mt/impl:BooleanVecSet~for~ZBDDFunctionMT<F>/fn:intsec_edge name=intsec_edge__mt props=C09
+//@header
+fn intsec_edge__mt<M>(manager: &M, lhs: &M::Edge, rhs: &M::Edge) -> (res: AllocResult<M::Edge>)
 where M: Manager<Terminal = ZBDDTerminal> + HasApplyCache<M, ZBDDOp> + HasZBDDCache<M::Edge>, M::InnerNode: HasLevel,
 //@spec
     requires edge_ok::<M::Edge>(), ok(lhs.view(), manager.num_levels_spec()), ok(rhs.view(), manager.num_levels_spec()),
@@ -1501,6 +1766,14 @@ where M: Manager<Terminal = ZBDDTerminal> + HasApplyCache<M, ZBDDOp> + HasZBDDCa
     requires edge_ok::<M::Edge>(), ok(lhs.view(), manager.num_levels_spec()), ok(rhs.view(), manager.num_levels_spec()),
     ensures res is Ok ==> diff_post(lhs.view(), rhs.view(), manager.num_levels_spec(), res->Ok_0.view()),
 //@end
+//@fn file=crates/oxidd-rules-zbdd/src/apply_rec.rs path=mod:mt/impl:BooleanVecSet~for~ZBDDFunctionMT<F>/fn:diff_edge name=diff_edge__mt props=C09
+//@header
+fn diff_edge__mt<M>(manager: &M, lhs: &M::Edge, rhs: &M::Edge) -> (res: AllocResult<M::Edge>)
+where M: Manager<Terminal = ZBDDTerminal> + HasApplyCache<M, ZBDDOp> + HasZBDDCache<M::Edge>, M::InnerNode: HasLevel,
+//@spec
+    requires edge_ok::<M::Edge>(), ok(lhs.view(), manager.num_levels_spec()), ok(rhs.view(), manager.num_levels_spec()),
+    ensures res is Ok ==> diff_post(lhs.view(), rhs.view(), manager.num_levels_spec(), res->Ok_0.view()),
+//@end
 //@fn file=crates/oxidd-rules-zbdd/src/apply_rec.rs path=impl:BooleanFunction~for~ZBDDFunction<F>/fn:f_edge props=C02
 //@header
 fn f_edge<M>(manager: &M) -> (res: M::Edge)
@@ -1508,9 +1781,24 @@ where M: Manager<Terminal = ZBDDTerminal> + HasApplyCache<M, ZBDDOp> + HasZBDDCa
 //@spec
     ensures ok(res.view(), manager.num_levels_spec()), forall|env: Env| !(#[trigger] bsem(res.view(), manager.num_levels_spec(), env)),
 //@end
+//@fn file=crates/oxidd-rules-zbdd/src/apply_rec.rs path=mod:mt/impl:BooleanFunction~for~ZBDDFunctionMT<F>/fn:f_edge name=f_edge__mt props=C02
+//@header
+fn f_edge__mt<M>(manager: &M) -> (res: M::Edge)
+where M: Manager<Terminal = ZBDDTerminal> + HasApplyCache<M, ZBDDOp> + HasZBDDCache<M::Edge>, M::InnerNode: HasLevel,
+//@spec
+    ensures ok(res.view(), manager.num_levels_spec()), forall|env: Env| !(#[trigger] bsem(res.view(), manager.num_levels_spec(), env)),
+//@end
 //@fn file=crates/oxidd-rules-zbdd/src/apply_rec.rs path=impl:BooleanFunction~for~ZBDDFunction<F>/fn:t_edge props=C02
 //@header
 fn t_edge<M>(manager: &M) -> (res: M::Edge)
+where M: Manager<Terminal = ZBDDTerminal> + HasApplyCache<M, ZBDDOp> + HasZBDDCache<M::Edge>, M::InnerNode: HasLevel,
+//@spec
+    requires zcache_ok(manager),
+    ensures ok(res.view(), manager.num_levels_spec()), forall|env: Env| #[trigger] bsem(res.view(), manager.num_levels_spec(), env),
+//@end
+//@fn file=crates/oxidd-rules-zbdd/src/apply_rec.rs path=mod:mt/impl:BooleanFunction~for~ZBDDFunctionMT<F>/fn:t_edge name=t_edge__mt props=C02
+//@header
+fn t_edge__mt<M>(manager: &M) -> (res: M::Edge)
 where M: Manager<Terminal = ZBDDTerminal> + HasApplyCache<M, ZBDDOp> + HasZBDDCache<M::Edge>, M::InnerNode: HasLevel,
 //@spec
     requires zcache_ok(manager),
@@ -1525,9 +1813,28 @@ where M: Manager<Terminal = ZBDDTerminal> + HasApplyCache<M, ZBDDOp> + HasZBDDCa
     ensures res is Ok ==> ok(res->Ok_0.view(), manager.num_levels_spec())
         && forall|env: Env| #[trigger] bsem(res->Ok_0.view(), manager.num_levels_spec(), env) == !bsem(edge.view(), manager.num_levels_spec(), env),
 //@end
+//@fn file=crates/oxidd-rules-zbdd/src/apply_rec.rs path=mod:mt/impl:BooleanFunction~for~ZBDDFunctionMT<F>/fn:not_edge name=not_edge__mt props=C02
+//@header
+fn not_edge__mt<M>(manager: &M, edge: &M::Edge) -> (res: AllocResult<M::Edge>)
+where M: Manager<Terminal = ZBDDTerminal> + HasApplyCache<M, ZBDDOp> + HasZBDDCache<M::Edge>, M::InnerNode: HasLevel,
+//@spec
+    requires edge_ok::<M::Edge>(), zcache_ok(manager), ok(edge.view(), manager.num_levels_spec()),
+    ensures res is Ok ==> ok(res->Ok_0.view(), manager.num_levels_spec())
+        && forall|env: Env| #[trigger] bsem(res->Ok_0.view(), manager.num_levels_spec(), env) == !bsem(edge.view(), manager.num_levels_spec(), env),
+//@end
 //@fn file=crates/oxidd-rules-zbdd/src/apply_rec.rs path=impl:BooleanFunction~for~ZBDDFunction<F>/fn:and_edge props=C02
 //@header
 fn and_edge<M>(manager: &M, lhs: &M::Edge, rhs: &M::Edge) -> (res: AllocResult<M::Edge>)
+where M: Manager<Terminal = ZBDDTerminal> + HasApplyCache<M, ZBDDOp> + HasZBDDCache<M::Edge>, M::InnerNode: HasLevel,
+//@spec
+    requires edge_ok::<M::Edge>(), zcache_ok(manager), ok(lhs.view(), manager.num_levels_spec()), ok(rhs.view(), manager.num_levels_spec()),
+    ensures res is Ok ==> ok(res->Ok_0.view(), manager.num_levels_spec())
+        && forall|env: Env| #[trigger] bsem(res->Ok_0.view(), manager.num_levels_spec(), env)
+            == prop_and(bsem(lhs.view(), manager.num_levels_spec(), env), bsem(rhs.view(), manager.num_levels_spec(), env)),
+//@end
+//@fn file=crates/oxidd-rules-zbdd/src/apply_rec.rs path=mod:mt/impl:BooleanFunction~for~ZBDDFunctionMT<F>/fn:and_edge name=and_edge__mt props=C02
+//@header
+fn and_edge__mt<M>(manager: &M, lhs: &M::Edge, rhs: &M::Edge) -> (res: AllocResult<M::Edge>)
 where M: Manager<Terminal = ZBDDTerminal> + HasApplyCache<M, ZBDDOp> + HasZBDDCache<M::Edge>, M::InnerNode: HasLevel,
 //@spec
     requires edge_ok::<M::Edge>(), zcache_ok(manager), ok(lhs.view(), manager.num_levels_spec()), ok(rhs.view(), manager.num_levels_spec()),
@@ -1545,9 +1852,29 @@ where M: Manager<Terminal = ZBDDTerminal> + HasApplyCache<M, ZBDDOp> + HasZBDDCa
         && forall|env: Env| #[trigger] bsem(res->Ok_0.view(), manager.num_levels_spec(), env)
             == prop_or(bsem(lhs.view(), manager.num_levels_spec(), env), bsem(rhs.view(), manager.num_levels_spec(), env)),
 //@end
+//@fn file=crates/oxidd-rules-zbdd/src/apply_rec.rs path=mod:mt/impl:BooleanFunction~for~ZBDDFunctionMT<F>/fn:or_edge name=or_edge__mt props=C02
+//@header
+fn or_edge__mt<M>(manager: &M, lhs: &M::Edge, rhs: &M::Edge) -> (res: AllocResult<M::Edge>)
+where M: Manager<Terminal = ZBDDTerminal> + HasApplyCache<M, ZBDDOp> + HasZBDDCache<M::Edge>, M::InnerNode: HasLevel,
+//@spec
+    requires edge_ok::<M::Edge>(), zcache_ok(manager), ok(lhs.view(), manager.num_levels_spec()), ok(rhs.view(), manager.num_levels_spec()),
+    ensures res is Ok ==> ok(res->Ok_0.view(), manager.num_levels_spec())
+        && forall|env: Env| #[trigger] bsem(res->Ok_0.view(), manager.num_levels_spec(), env)
+            == prop_or(bsem(lhs.view(), manager.num_levels_spec(), env), bsem(rhs.view(), manager.num_levels_spec(), env)),
+//@end
 //@fn file=crates/oxidd-rules-zbdd/src/apply_rec.rs path=impl:BooleanFunction~for~ZBDDFunction<F>/fn:nand_edge props=C02 selfcall=Self::>
 //@header
 fn nand_edge<M>(manager: &M, lhs: &M::Edge, rhs: &M::Edge) -> (res: AllocResult<M::Edge>)
+where M: Manager<Terminal = ZBDDTerminal> + HasApplyCache<M, ZBDDOp> + HasZBDDCache<M::Edge>, M::InnerNode: HasLevel,
+//@spec
+    requires edge_ok::<M::Edge>(), zcache_ok(manager), ok(lhs.view(), manager.num_levels_spec()), ok(rhs.view(), manager.num_levels_spec()),
+    ensures res is Ok ==> ok(res->Ok_0.view(), manager.num_levels_spec())
+        && forall|env: Env| #[trigger] bsem(res->Ok_0.view(), manager.num_levels_spec(), env)
+            == prop_nand(bsem(lhs.view(), manager.num_levels_spec(), env), bsem(rhs.view(), manager.num_levels_spec(), env)),
+//@end
+//@fn file=crates/oxidd-rules-zbdd/src/apply_rec.rs path=mod:mt/impl:BooleanFunction~for~ZBDDFunctionMT<F>/fn:nand_edge name=nand_edge__mt props=C02
+//@header
+fn nand_edge__mt<M>(manager: &M, lhs: &M::Edge, rhs: &M::Edge) -> (res: AllocResult<M::Edge>)
 where M: Manager<Terminal = ZBDDTerminal> + HasApplyCache<M, ZBDDOp> + HasZBDDCache<M::Edge>, M::InnerNode: HasLevel,
 //@spec
     requires edge_ok::<M::Edge>(), zcache_ok(manager), ok(lhs.view(), manager.num_levels_spec()), ok(rhs.view(), manager.num_levels_spec()),
@@ -1565,9 +1892,29 @@ where M: Manager<Terminal = ZBDDTerminal> + HasApplyCache<M, ZBDDOp> + HasZBDDCa
         && forall|env: Env| #[trigger] bsem(res->Ok_0.view(), manager.num_levels_spec(), env)
             == prop_nor(bsem(lhs.view(), manager.num_levels_spec(), env), bsem(rhs.view(), manager.num_levels_spec(), env)),
 //@end
+//@fn file=crates/oxidd-rules-zbdd/src/apply_rec.rs path=mod:mt/impl:BooleanFunction~for~ZBDDFunctionMT<F>/fn:nor_edge name=nor_edge__mt props=C02
+//@header
+fn nor_edge__mt<M>(manager: &M, lhs: &M::Edge, rhs: &M::Edge) -> (res: AllocResult<M::Edge>)
+where M: Manager<Terminal = ZBDDTerminal> + HasApplyCache<M, ZBDDOp> + HasZBDDCache<M::Edge>, M::InnerNode: HasLevel,
+//@spec
+    requires edge_ok::<M::Edge>(), zcache_ok(manager), ok(lhs.view(), manager.num_levels_spec()), ok(rhs.view(), manager.num_levels_spec()),
+    ensures res is Ok ==> ok(res->Ok_0.view(), manager.num_levels_spec())
+        && forall|env: Env| #[trigger] bsem(res->Ok_0.view(), manager.num_levels_spec(), env)
+            == prop_nor(bsem(lhs.view(), manager.num_levels_spec(), env), bsem(rhs.view(), manager.num_levels_spec(), env)),
+//@end
 //@fn file=crates/oxidd-rules-zbdd/src/apply_rec.rs path=impl:BooleanFunction~for~ZBDDFunction<F>/fn:xor_edge props=C02
 //@header
 fn xor_edge<M>(manager: &M, lhs: &M::Edge, rhs: &M::Edge) -> (res: AllocResult<M::Edge>)
+where M: Manager<Terminal = ZBDDTerminal> + HasApplyCache<M, ZBDDOp> + HasZBDDCache<M::Edge>, M::InnerNode: HasLevel,
+//@spec
+    requires edge_ok::<M::Edge>(), zcache_ok(manager), ok(lhs.view(), manager.num_levels_spec()), ok(rhs.view(), manager.num_levels_spec()),
+    ensures res is Ok ==> ok(res->Ok_0.view(), manager.num_levels_spec())
+        && forall|env: Env| #[trigger] bsem(res->Ok_0.view(), manager.num_levels_spec(), env)
+            == prop_xor(bsem(lhs.view(), manager.num_levels_spec(), env), bsem(rhs.view(), manager.num_levels_spec(), env)),
+//@end
+//@fn file=crates/oxidd-rules-zbdd/src/apply_rec.rs path=mod:mt/impl:BooleanFunction~for~ZBDDFunctionMT<F>/fn:xor_edge name=xor_edge__mt props=C02
+//@header
+fn xor_edge__mt<M>(manager: &M, lhs: &M::Edge, rhs: &M::Edge) -> (res: AllocResult<M::Edge>)
 where M: Manager<Terminal = ZBDDTerminal> + HasApplyCache<M, ZBDDOp> + HasZBDDCache<M::Edge>, M::InnerNode: HasLevel,
 //@spec
     requires edge_ok::<M::Edge>(), zcache_ok(manager), ok(lhs.view(), manager.num_levels_spec()), ok(rhs.view(), manager.num_levels_spec()),
@@ -1585,9 +1932,29 @@ where M: Manager<Terminal = ZBDDTerminal> + HasApplyCache<M, ZBDDOp> + HasZBDDCa
         && forall|env: Env| #[trigger] bsem(res->Ok_0.view(), manager.num_levels_spec(), env)
             == prop_equiv(bsem(lhs.view(), manager.num_levels_spec(), env), bsem(rhs.view(), manager.num_levels_spec(), env)),
 //@end
+//@fn file=crates/oxidd-rules-zbdd/src/apply_rec.rs path=mod:mt/impl:BooleanFunction~for~ZBDDFunctionMT<F>/fn:equiv_edge name=equiv_edge__mt props=C02
+//@header
+fn equiv_edge__mt<M>(manager: &M, lhs: &M::Edge, rhs: &M::Edge) -> (res: AllocResult<M::Edge>)
+where M: Manager<Terminal = ZBDDTerminal> + HasApplyCache<M, ZBDDOp> + HasZBDDCache<M::Edge>, M::InnerNode: HasLevel,
+//@spec
+    requires edge_ok::<M::Edge>(), zcache_ok(manager), ok(lhs.view(), manager.num_levels_spec()), ok(rhs.view(), manager.num_levels_spec()),
+    ensures res is Ok ==> ok(res->Ok_0.view(), manager.num_levels_spec())
+        && forall|env: Env| #[trigger] bsem(res->Ok_0.view(), manager.num_levels_spec(), env)
+            == prop_equiv(bsem(lhs.view(), manager.num_levels_spec(), env), bsem(rhs.view(), manager.num_levels_spec(), env)),
+//@end
 //@fn file=crates/oxidd-rules-zbdd/src/apply_rec.rs path=impl:BooleanFunction~for~ZBDDFunction<F>/fn:imp_edge props=C02 selfcall=Self::>
 //@header
 fn imp_edge<M>(manager: &M, lhs: &M::Edge, rhs: &M::Edge) -> (res: AllocResult<M::Edge>)
+where M: Manager<Terminal = ZBDDTerminal> + HasApplyCache<M, ZBDDOp> + HasZBDDCache<M::Edge>, M::InnerNode: HasLevel,
+//@spec
+    requires edge_ok::<M::Edge>(), zcache_ok(manager), ok(lhs.view(), manager.num_levels_spec()), ok(rhs.view(), manager.num_levels_spec()),
+    ensures res is Ok ==> ok(res->Ok_0.view(), manager.num_levels_spec())
+        && forall|env: Env| #[trigger] bsem(res->Ok_0.view(), manager.num_levels_spec(), env)
+            == prop_imp(bsem(lhs.view(), manager.num_levels_spec(), env), bsem(rhs.view(), manager.num_levels_spec(), env)),
+//@end
+//@fn file=crates/oxidd-rules-zbdd/src/apply_rec.rs path=mod:mt/impl:BooleanFunction~for~ZBDDFunctionMT<F>/fn:imp_edge name=imp_edge__mt props=C02
+//@header
+fn imp_edge__mt<M>(manager: &M, lhs: &M::Edge, rhs: &M::Edge) -> (res: AllocResult<M::Edge>)
 where M: Manager<Terminal = ZBDDTerminal> + HasApplyCache<M, ZBDDOp> + HasZBDDCache<M::Edge>, M::InnerNode: HasLevel,
 //@spec
     requires edge_ok::<M::Edge>(), zcache_ok(manager), ok(lhs.view(), manager.num_levels_spec()), ok(rhs.view(), manager.num_levels_spec()),
@@ -1605,9 +1972,29 @@ where M: Manager<Terminal = ZBDDTerminal> + HasApplyCache<M, ZBDDOp> + HasZBDDCa
         && forall|env: Env| #[trigger] bsem(res->Ok_0.view(), manager.num_levels_spec(), env)
             == prop_imp_strict(bsem(lhs.view(), manager.num_levels_spec(), env), bsem(rhs.view(), manager.num_levels_spec(), env)),
 //@end
+//@fn file=crates/oxidd-rules-zbdd/src/apply_rec.rs path=mod:mt/impl:BooleanFunction~for~ZBDDFunctionMT<F>/fn:imp_strict_edge name=imp_strict_edge__mt props=C02
+//@header
+fn imp_strict_edge__mt<M>(manager: &M, lhs: &M::Edge, rhs: &M::Edge) -> (res: AllocResult<M::Edge>)
+where M: Manager<Terminal = ZBDDTerminal> + HasApplyCache<M, ZBDDOp> + HasZBDDCache<M::Edge>, M::InnerNode: HasLevel,
+//@spec
+    requires edge_ok::<M::Edge>(), zcache_ok(manager), ok(lhs.view(), manager.num_levels_spec()), ok(rhs.view(), manager.num_levels_spec()),
+    ensures res is Ok ==> ok(res->Ok_0.view(), manager.num_levels_spec())
+        && forall|env: Env| #[trigger] bsem(res->Ok_0.view(), manager.num_levels_spec(), env)
+            == prop_imp_strict(bsem(lhs.view(), manager.num_levels_spec(), env), bsem(rhs.view(), manager.num_levels_spec(), env)),
+//@end
 //@fn file=crates/oxidd-rules-zbdd/src/apply_rec.rs path=impl:BooleanFunction~for~ZBDDFunction<F>/fn:ite_edge props=C02
 //@header
 fn ite_edge<M>(manager: &M, f: &M::Edge, g: &M::Edge, h: &M::Edge) -> (res: AllocResult<M::Edge>)
+where M: Manager<Terminal = ZBDDTerminal> + HasApplyCache<M, ZBDDOp> + HasZBDDCache<M::Edge>, M::InnerNode: HasLevel,
+//@spec
+    requires edge_ok::<M::Edge>(), zcache_ok(manager), ok(f.view(), manager.num_levels_spec()), ok(g.view(), manager.num_levels_spec()), ok(h.view(), manager.num_levels_spec()),
+    ensures res is Ok ==> ok(res->Ok_0.view(), manager.num_levels_spec())
+        && forall|env: Env| #[trigger] bsem(res->Ok_0.view(), manager.num_levels_spec(), env)
+            == (if bsem(f.view(), manager.num_levels_spec(), env) { bsem(g.view(), manager.num_levels_spec(), env) } else { bsem(h.view(), manager.num_levels_spec(), env) }),
+//@end
+//@fn file=crates/oxidd-rules-zbdd/src/apply_rec.rs path=mod:mt/impl:BooleanFunction~for~ZBDDFunctionMT<F>/fn:ite_edge name=ite_edge__mt props=C02
+//@header
+fn ite_edge__mt<M>(manager: &M, f: &M::Edge, g: &M::Edge, h: &M::Edge) -> (res: AllocResult<M::Edge>)
 where M: Manager<Terminal = ZBDDTerminal> + HasApplyCache<M, ZBDDOp> + HasZBDDCache<M::Edge>, M::InnerNode: HasLevel,
 //@spec
     requires edge_ok::<M::Edge>(), zcache_ok(manager), ok(f.view(), manager.num_levels_spec()), ok(g.view(), manager.num_levels_spec()), ok(h.view(), manager.num_levels_spec()),
@@ -1665,16 +2052,57 @@ where M: Manager<Terminal = ZBDDTerminal> + HasApplyCache<M, ZBDDOp> + HasZBDDCa
     ensures res is Ok ==> change_post(this.view(), manager.var_to_level_spec(var as int), manager.num_levels_spec(), res->Ok_0.view()),
 //@end
 } // mod apply_rec_w
+pub mod apply_rec_v {
+use super::*;
+broadcast use {leaf_lemmas, taut_lemmas, chain_lemmas};
+// C02: the variable constructor (its for-loop gets an invariant via rule R17)
+//@fn file=crates/oxidd-rules-zbdd/src/apply_rec.rs path=impl:BooleanFunction~for~ZBDDFunction<F>/fn:var_edge props=C02,C03 forinv=0
+//@header
+fn var_edge<M>(manager: &M, var: VarNo) -> (res: AllocResult<M::Edge>)
+where M: Manager<Terminal = ZBDDTerminal> + HasApplyCache<M, ZBDDOp> + HasZBDDCache<M::Edge>, M::InnerNode: HasLevel,
+//@spec
+    requires zcache_ok(manager), (var as int) < manager.num_levels_spec(),
+    // exactly the diagram of the Boolean function x_var (see lemma var_tree_is_variable)
+    ensures res is Ok ==> res->Ok_0.view() == var_tree(manager.var_to_level_spec(var as int), manager.num_levels_spec()),
+//@loop
+    invariant
+        (level as int) < manager.num_levels_spec() < u32::MAX, iter__0.rem().len() <= level,
+        forall|i: int| 0 <= i < iter__0.rem().len() ==> #[trigger] iter__0.rem()[i] == iter__0.rem().len() - 1 - i,
+        edge.view() == dc_chain(iter__0.rem().len() as int, level as int, mk(level, taut_tree(level as int + 1, manager.num_levels_spec()), ee())),
+    ensures
+        edge.view() == dc_chain(0, level as int, mk(level, taut_tree(level as int + 1, manager.num_levels_spec()), ee())),
+    decreases iter__0.rem().len(),
+//@end
+//@fn file=crates/oxidd-rules-zbdd/src/apply_rec.rs path=mod:mt/impl:BooleanFunction~for~ZBDDFunctionMT<F>/fn:var_edge name=var_edge__mt props=C02,C03 subst_text=ZBDDFunction::<F>::::=
+//@header
+fn var_edge__mt<M>(manager: &M, var: VarNo) -> (res: AllocResult<M::Edge>)
+where M: Manager<Terminal = ZBDDTerminal> + HasApplyCache<M, ZBDDOp> + HasZBDDCache<M::Edge>, M::InnerNode: HasLevel,
+//@spec
+    requires zcache_ok(manager), (var as int) < manager.num_levels_spec(),
+    // exactly the diagram of the Boolean function x_var (see lemma var_tree_is_variable)
+    ensures res is Ok ==> res->Ok_0.view() == var_tree(manager.var_to_level_spec(var as int), manager.num_levels_spec()),
+//@end
+} // mod apply_rec_v
 pub mod apply_rec_r {
 use super::*;
 use super::apply_rec::*;
-broadcast use {leaf_lemmas, upd_lemmas, restrict_lemmas};
-// nested fn with a `for` loop over a reversed range (no loop invariants can be supplied): ASSUMED contract
-//@fn file=crates/oxidd-rules-zbdd/src/apply_rec.rs path=fn:restrict/fn:restrict_base rename=restrict__restrict_base mode=stub
+#[allow(unused_imports)] use crate::ZBDDTerminal::*;  // the nested fn `restrict_base` sees the `use ZBDDTerminal::*` of its parent body
+broadcast use {leaf_lemmas, upd_lemmas, restrict_lemmas, rb_lemmas, taut_lemmas};
+// nested fn with a `for` loop over a reversed range: proved via rule R17 (loop invariant spliced, `(a..b).rev()` -> stub RevRange)
+//@fn file=crates/oxidd-rules-zbdd/src/apply_rec.rs path=fn:restrict/fn:restrict_base rename=restrict__restrict_base forinv=0 props=C04
 //@spec
     requires edge_ok::<M::Edge>(), zcache_ok(manager), ok(vars.view(), manager.num_levels_spec()), is_cube(vars.view()),
         (level as int) <= top(vars.view()), (level as int) <= manager.num_levels_spec() <= u32::MAX,
-    ensures res is Ok ==> restrict_post(bb(), vars.view(), level as int, manager.num_levels_spec(), res->Ok_0.view()),
+    ensures res is Ok ==> res->Ok_0.view() == rb_model(vars.view(), level as int, manager.num_levels_spec())
+        && restrict_post(bb(), vars.view(), level as int, manager.num_levels_spec(), res->Ok_0.view()),
+    decreases vars.view(),
+//@loop
+    invariant
+        iter__0.lo == level, level <= iter__0.cur <= node_level, (node_level as int) < manager.num_levels_spec() <= u32::MAX,
+        res.view() == dc_chain(iter__0.cur as int, node_level as int, rb_model(hi.view(), node_level as int + 1, manager.num_levels_spec())),
+    ensures
+        res.view() == dc_chain(level as int, node_level as int, rb_model(hi.view(), node_level as int + 1, manager.num_levels_spec())),
+    decreases iter__0.cur - iter__0.lo,
 //@end
 //@fn file=crates/oxidd-rules-zbdd/src/apply_rec.rs path=fn:restrict hoist=restrict_base>restrict__restrict_base nodecr props=C04,C06 vis=pub(crate)
 //@spec
@@ -1685,6 +2113,16 @@ broadcast use {leaf_lemmas, upd_lemmas, restrict_lemmas};
 //@fn file=crates/oxidd-rules-zbdd/src/apply_rec.rs path=impl:BooleanFunction~for~ZBDDFunction<F>/fn:restrict_edge props=C04
 //@header
 fn restrict_edge<M>(manager: &M, root: &M::Edge, vars: &M::Edge) -> (res: AllocResult<M::Edge>)
+where M: Manager<Terminal = ZBDDTerminal> + HasApplyCache<M, ZBDDOp> + HasZBDDCache<M::Edge>, M::InnerNode: HasLevel,
+//@spec
+    requires edge_ok::<M::Edge>(), zcache_ok(manager), ok(root.view(), manager.num_levels_spec()), ok(vars.view(), manager.num_levels_spec()), is_cube(vars.view()),
+        0 <= manager.num_levels_spec() <= u32::MAX,
+    ensures res is Ok ==> ok(res->Ok_0.view(), manager.num_levels_spec())
+        && forall|env: Env| #[trigger] bsem(res->Ok_0.view(), manager.num_levels_spec(), env) == bsem(root.view(), manager.num_levels_spec(), cube_env(vars.view(), env)),
+//@end
+//@fn file=crates/oxidd-rules-zbdd/src/apply_rec.rs path=mod:mt/impl:BooleanFunction~for~ZBDDFunctionMT<F>/fn:restrict_edge name=restrict_edge__mt props=C04
+//@header
+fn restrict_edge__mt<M>(manager: &M, root: &M::Edge, vars: &M::Edge) -> (res: AllocResult<M::Edge>)
 where M: Manager<Terminal = ZBDDTerminal> + HasApplyCache<M, ZBDDOp> + HasZBDDCache<M::Edge>, M::InnerNode: HasLevel,
 //@spec
     requires edge_ok::<M::Edge>(), zcache_ok(manager), ok(root.view(), manager.num_levels_spec()), ok(vars.view(), manager.num_levels_spec()), is_cube(vars.view()),
@@ -1732,9 +2170,28 @@ where M: Manager<Terminal = ZBDDTerminal> + HasApplyCache<M, ZBDDOp> + HasZBDDCa
         res is Ok ==> forall|o: spec_fn(Tree, u32) -> bool| (forall|mm: &M, e2: &M::Edge, l: LevelNo, r: bool| #[trigger] choice.ensures((mm, e2, l), r) ==> r == o(e2.view(), l))
             ==> #[trigger] zpick_follows(edge.view(), o, res->Ok_0.view()),
 //@end
+//@fn file=crates/oxidd-rules-zbdd/src/apply_rec.rs path=mod:mt/impl:BooleanFunction~for~ZBDDFunctionMT<F>/fn:pick_cube_dd_edge name=pick_cube_dd_edge__mt props=C13 subst_text=ZBDDFunction::<F>::::=
+//@header
+fn pick_cube_dd_edge__mt<M>(manager: &M, edge: &M::Edge, choice: impl FnMut(&M, &M::Edge, LevelNo) -> bool) -> (res: AllocResult<M::Edge>)
+where M: Manager<Terminal = ZBDDTerminal> + HasApplyCache<M, ZBDDOp> + HasZBDDCache<M::Edge>, M::InnerNode: HasLevel,
+//@spec
+    requires edge_ok::<M::Edge>(), ok(edge.view(), manager.num_levels_spec()),
+        forall|mm: &M, e2: &M::Edge, l: LevelNo| (e2.view() matches Tree::Inner(k, a, b) && k == l && *b != ee() && *a != *b) ==> #[trigger] choice.requires((mm, e2, l)),
+    ensures res is Ok ==> zpick_ok(edge.view(), res->Ok_0.view()) && ok(res->Ok_0.view(), manager.num_levels_spec()),
+        res is Ok ==> forall|o: spec_fn(Tree, u32) -> bool| (forall|mm: &M, e2: &M::Edge, l: LevelNo, r: bool| #[trigger] choice.ensures((mm, e2, l), r) ==> r == o(e2.view(), l))
+            ==> #[trigger] zpick_follows(edge.view(), o, res->Ok_0.view()),
+//@end
 //@fn file=crates/oxidd-rules-zbdd/src/apply_rec.rs path=impl:BooleanFunction~for~ZBDDFunction<F>/fn:pick_cube_dd_set_edge hoist=set_pop>pick_cube_dd_set_edge__set_pop,inner>pick_cube_dd_set_edge__inner props=C13
 //@header
 fn pick_cube_dd_set_edge<M>(manager: &M, edge: &M::Edge, literal_set: &M::Edge) -> (res: AllocResult<M::Edge>)
+where M: Manager<Terminal = ZBDDTerminal> + HasApplyCache<M, ZBDDOp> + HasZBDDCache<M::Edge>, M::InnerNode: HasLevel,
+//@spec
+    requires edge_ok::<M::Edge>(), ok(edge.view(), manager.num_levels_spec()), ok(literal_set.view(), manager.num_levels_spec()),
+    ensures res is Ok ==> zpick_set_ok(edge.view(), literal_set.view(), res->Ok_0.view()) && ok(res->Ok_0.view(), manager.num_levels_spec()),
+//@end
+//@fn file=crates/oxidd-rules-zbdd/src/apply_rec.rs path=mod:mt/impl:BooleanFunction~for~ZBDDFunctionMT<F>/fn:pick_cube_dd_set_edge name=pick_cube_dd_set_edge__mt props=C13 subst_text=ZBDDFunction::<F>::::=
+//@header
+fn pick_cube_dd_set_edge__mt<M>(manager: &M, edge: &M::Edge, literal_set: &M::Edge) -> (res: AllocResult<M::Edge>)
 where M: Manager<Terminal = ZBDDTerminal> + HasApplyCache<M, ZBDDOp> + HasZBDDCache<M::Edge>, M::InnerNode: HasLevel,
 //@spec
     requires edge_ok::<M::Edge>(), ok(edge.view(), manager.num_levels_spec()), ok(literal_set.view(), manager.num_levels_spec()),
@@ -1767,10 +2224,24 @@ fn sat_count_edge<M: Manager<Terminal = ZBDDTerminal>, N: SatCountNumber, S>(man
         (vars as int) >= manager.num_levels_spec() ==>
         res.nv() == zmodels(edge.view(), 0, manager.num_levels_spec()) * pow2((vars - manager.num_levels_spec()) as nat),
 //@end
+//@fn file=crates/oxidd-rules-zbdd/src/apply_rec.rs path=mod:mt/impl:BooleanFunction~for~ZBDDFunctionMT<F>/fn:sat_count_edge name=sat_count_edge__mt props=C12 subst_text=ZBDDFunction::<F>::::=
+//@header
+fn sat_count_edge__mt<M: Manager<Terminal = ZBDDTerminal>, N: SatCountNumber, S>(manager: &M, edge: &M::Edge, vars: LevelNo, cache: &mut SatCountCache<N, S>) -> (res: N)
+//@spec
+    // no precondition relates `vars` to the number of levels: none is documented, and the property quantifies over vars > num_levels
+    requires num_ok::<N>(), ok(edge.view(), manager.num_levels_spec()),
+    // models over the manager's variables, scaled down when only the first `vars` variables are considered relevant
+    // (for vars > num_levels the subtraction `num_levels() - vars` is already refuted as arithmetic underflow: FINDING)
+    ensures (vars as int) <= manager.num_levels_spec() ==>
+        res.nv() == zmodels(edge.view(), 0, manager.num_levels_spec()) / pow2((manager.num_levels_spec() - vars) as nat),
+        // every variable beyond the manager's levels is unconstrained: it doubles the number of models
+        (vars as int) >= manager.num_levels_spec() ==>
+        res.nv() == zmodels(edge.view(), 0, manager.num_levels_spec()) * pow2((vars - manager.num_levels_spec()) as nat),
+//@end
 } // mod apply_rec_c
 pub mod apply_rec_e {
 use super::*;
-broadcast use {leaf_lemmas, eval_lemmas};
+broadcast use {leaf_lemmas, eval_lemmas, zeval_lemmas};
 //@fn file=crates/oxidd-rules-zbdd/src/apply_rec.rs path=impl:BooleanFunction~for~ZBDDFunction<F>/fn:eval_edge/fn:inner rename=eval_edge__inner ret=r props=C02
 //@spec
     requires wf(edge.view()), eval_pre(edge.view(), values.bits@, ones as int),
@@ -1780,6 +2251,27 @@ broadcast use {leaf_lemmas, eval_lemmas};
             ==> r == bsem(edge.view(), manager.num_levels_spec(), sof(values.bits@)),
         ones as int == cnt(values.bits@, 0) ==> r == mem(edge.view(), sof(values.bits@)),
     decreases edge.view(),
+//@end
+//@fn file=crates/oxidd-rules-zbdd/src/apply_rec.rs path=impl:BooleanFunction~for~ZBDDFunction<F>/fn:eval_edge hoist=inner>eval_edge__inner forinv=0 ret=r props=C02
+//@header
+fn eval_edge<M>(manager: &M, edge: &M::Edge, args: ArgIter) -> (r: bool)
+where M: Manager<Terminal = ZBDDTerminal> + HasApplyCache<M, ZBDDOp> + HasZBDDCache<M::Edge>, M::InnerNode: HasLevel,
+//@spec
+    requires ok(edge.view(), manager.num_levels_spec()), args.done() == Seq::<(u32, bool)>::empty(),
+        // documented panic otherwise
+        forall|i: int| 0 <= i < args.all().len() ==> (#[trigger] args.all()[i].0 as int) < manager.num_levels_spec(),
+    // the value of the Boolean function under the assignment given by the pairs (last value wins, unassigned variables false)
+    ensures r == bsem(edge.view(), manager.num_levels_spec(), aenv(args.all(), vl(manager), all_false())),
+//@loop
+    invariant
+        iter__0.all() == args.all(), iter__0.done().len() <= iter__0.all().len(),
+        forall|i: int| 0 <= i < iter__0.all().len() ==> (#[trigger] iter__0.all()[i].0 as int) < manager.num_levels_spec(),
+        manager.num_levels_spec() <= u32::MAX,
+        zeval_inv(values.bits@, ones as int, iter__0.done(), vl(manager), manager.num_levels_spec()),
+    ensures
+        iter__0.all() == args.all(),
+        zeval_inv(values.bits@, ones as int, iter__0.all(), vl(manager), manager.num_levels_spec()),
+    decreases iter__0.all().len() - iter__0.done().len(),
 //@end
 } // mod apply_rec_e
 
